@@ -9,8 +9,16 @@
 (*   chan      values delivered on the stop channel of the current run      *)
 (*   accept    the HTTP / WebSocket listener accepts clients                *)
 (*   conns     open client connections                                      *)
+(*   buf       messages the messaging client has received but not yet       *)
+(*             handed to the cache (its listener's channel)                 *)
+(*   inCh      the cache's work channel: "open" / "closed" (Cache.Stop)     *)
+(*   crash     a message was handed to a closed work channel (a send on a   *)
+(*             closed Go channel: the process dies)                         *)
 (* Stop's middle part (stopWSHandler ... stopMQClient) runs without the     *)
-(* service mutex; it is one step per component here.                        *)
+(* service mutex; it is one step per component here, except stopMQClient:   *)
+(* the client's Close cuts the connection, waits until its listener has     *)
+(* handed over everything still buffered, and only then are the cache       *)
+(* workers stopped.  CloseFirst = FALSE swaps that order (negative check).  *)
 (*                                                                          *)
 (*   OneCause      at most one value per run on the stop channel, and it is *)
 (*                 the cause of the Stop call that won                      *)
@@ -18,30 +26,43 @@
 (*                 the listener does not accept                             *)
 (*   NoAcceptWhileStopping  nothing is accepted once a Stop has begun       *)
 (*   Terminates    a Stop that won eventually completes                     *)
+(*   NoCrash       nothing is ever handed to a closed work channel          *)
 (***************************************************************************)
 EXTENDS Integers, Sequences, FiniteSets
 
 CONSTANTS Callers,     \* Stop callers: e.g. {"user", "mq"}; the cause is the caller's name
           MaxRuns,     \* Start calls that may succeed
-          MaxConns
+          MaxConns,
+          MaxBuf,      \* messages the client may hold
+          CloseFirst   \* TRUE: as implemented (client closed and drained before the cache stops)
 
-VARIABLES stop, stopping, chan, accept, conns, pc, winner, runs, mqUp
+VARIABLES stop, stopping, chan, accept, conns, pc, winner, runs, mqUp, buf, inCh, crash
 
-vars == <<stop, stopping, chan, accept, conns, pc, winner, runs, mqUp>>
+vars == <<stop, stopping, chan, accept, conns, pc, winner, runs, mqUp, buf, inCh, crash>>
+mqv == <<buf, inCh, crash>>
 
 Init == stop = FALSE /\ stopping = FALSE /\ chan = <<>> /\ accept = FALSE /\ conns = 0
         /\ pc = [c \in Callers |-> "idle"] /\ winner = "" /\ runs = 0 /\ mqUp = FALSE
+        /\ buf = 0 /\ inCh = "closed" /\ crash = FALSE
 
 (* Start: under the mutex; a no-op while running, refused while stopping *)
 Start ==
     /\ ~stop /\ ~stopping /\ runs < MaxRuns
     /\ stop' = TRUE /\ chan' = <<>> /\ accept' = TRUE /\ mqUp' = TRUE /\ runs' = runs + 1 /\ winner' = ""
-    /\ UNCHANGED <<stopping, conns, pc>>
+    /\ buf' = 0 /\ inCh' = "open"
+    /\ UNCHANGED <<stopping, conns, pc, crash>>
 
 Connect == accept /\ conns < MaxConns /\ conns' = conns + 1
-           /\ UNCHANGED <<stop, stopping, chan, accept, pc, winner, runs, mqUp>>
+           /\ UNCHANGED <<stop, stopping, chan, accept, pc, winner, runs, mqUp, mqv>>
 Disconnect == conns > 0 /\ conns' = conns - 1
-              /\ UNCHANGED <<stop, stopping, chan, accept, pc, winner, runs, mqUp>>
+              /\ UNCHANGED <<stop, stopping, chan, accept, pc, winner, runs, mqUp, mqv>>
+
+(* the messaging client receives a message (event or response) while its connection is up ... *)
+MQReceive == mqUp /\ buf < MaxBuf /\ buf' = buf + 1
+             /\ UNCHANGED <<stop, stopping, chan, accept, conns, pc, winner, runs, mqUp, inCh, crash>>
+(* ... and its listener hands it to the cache: EventSubscription.Enqueue sends on the work channel *)
+MQDeliver == buf > 0 /\ buf' = buf - 1 /\ crash' = (crash \/ inCh = "closed")
+             /\ UNCHANGED <<stop, stopping, chan, accept, conns, pc, winner, runs, mqUp, inCh>>
 
 (* Stop, first critical section: only one caller passes *)
 StopEnter(c) ==
@@ -50,30 +71,41 @@ StopEnter(c) ==
     /\ IF ~stop \/ stopping
        THEN UNCHANGED <<stopping, pc, winner>>     \* returns at once
        ELSE stopping' = TRUE /\ pc' = [pc EXCEPT ![c] = "ws"] /\ winner' = c
-    /\ UNCHANGED <<stop, chan, accept, conns, runs, mqUp>>
+    /\ UNCHANGED <<stop, chan, accept, conns, runs, mqUp, mqv>>
 
 (* stopWSHandler: no new connections, every open one is closed (bounded wait) *)
-StopWS(c) == pc[c] = "ws" /\ accept' = FALSE /\ conns' = 0 /\ pc' = [pc EXCEPT ![c] = "mq"]
-             /\ UNCHANGED <<stop, stopping, chan, winner, runs, mqUp>>
+StopWS(c) == pc[c] = "ws" /\ accept' = FALSE /\ conns' = 0 /\ pc' = [pc EXCEPT ![c] = IF CloseFirst THEN "mq" ELSE "cache"]
+             /\ UNCHANGED <<stop, stopping, chan, winner, runs, mqUp, mqv>>
 
-(* stopHTTPServer / stopMQClient *)
-StopMQ(c) == pc[c] = "mq" /\ mqUp' = FALSE /\ pc' = [pc EXCEPT ![c] = "exit"]
-             /\ UNCHANGED <<stop, stopping, chan, accept, conns, winner, runs>>
+(* stopHTTPServer / stopMQClient: Close cuts the connection (nothing more is received) ... *)
+MQCloseBegin(c) == pc[c] = "mq" /\ mqUp' = FALSE /\ pc' = [pc EXCEPT ![c] = "drain"]
+                   /\ UNCHANGED <<stop, stopping, chan, accept, conns, winner, runs, mqv>>
+(* ... and returns when the listener has handed over what was buffered *)
+MQCloseDone(c) == pc[c] = "drain" /\ buf = 0 /\ pc' = [pc EXCEPT ![c] = IF CloseFirst THEN "cache" ELSE "exit"]
+                  /\ UNCHANGED <<stop, stopping, chan, accept, conns, winner, runs, mqUp, mqv>>
+(* Cache.Stop closes the work channel *)
+CacheStop(c) == pc[c] = "cache" /\ inCh' = "closed" /\ pc' = [pc EXCEPT ![c] = IF CloseFirst THEN "exit" ELSE "mq"]
+                /\ UNCHANGED <<stop, stopping, chan, accept, conns, winner, runs, mqUp, buf, crash>>
 
 (* second critical section: the cause is sent, the channel closed, the service can start again *)
 StopExit(c) ==
     /\ pc[c] = "exit"
     /\ chan' = Append(chan, c) /\ stop' = FALSE /\ stopping' = FALSE /\ pc' = [pc EXCEPT ![c] = "idle"]
-    /\ UNCHANGED <<accept, conns, winner, runs, mqUp>>
+    /\ UNCHANGED <<accept, conns, winner, runs, mqUp, mqv>>
 
-Next == Start \/ Connect \/ Disconnect \/ \E c \in Callers : StopEnter(c) \/ StopWS(c) \/ StopMQ(c) \/ StopExit(c)
+Next == Start \/ Connect \/ Disconnect \/ MQReceive \/ MQDeliver
+        \/ \E c \in Callers : StopEnter(c) \/ StopWS(c) \/ MQCloseBegin(c) \/ MQCloseDone(c) \/ CacheStop(c) \/ StopExit(c)
 
-Spec == Init /\ [][Next]_vars /\ \A c \in Callers : WF_vars(StopWS(c)) /\ WF_vars(StopMQ(c)) /\ WF_vars(StopExit(c))
+Spec == Init /\ [][Next]_vars /\ WF_vars(MQDeliver)
+        /\ \A c \in Callers : WF_vars(StopWS(c)) /\ WF_vars(MQCloseBegin(c)) /\ WF_vars(MQCloseDone(c)) /\ WF_vars(CacheStop(c)) /\ WF_vars(StopExit(c))
 
 -----------------------------------------------------------------------------
 OneCause == Len(chan) <= 1 /\ (Len(chan) = 1 => chan[1] = winner)
 ClosedAfter == ~stop => (conns = 0 /\ ~accept)
-NoAcceptWhileStopping == (\E c \in Callers : pc[c] \in {"mq", "exit"}) => (~accept /\ conns = 0)
+NoAcceptWhileStopping == (\E c \in Callers : pc[c] \in {"mq", "drain", "cache", "exit"}) => (~accept /\ conns = 0)
+NoCrash == ~crash
+(* when a run has ended the client holds nothing and the work channel is closed: nothing is served from the cache *)
+QuietAfter == ~stop => (buf = 0 /\ inCh = "closed")
 OneStopper == Cardinality({c \in Callers : pc[c] # "idle"}) <= 1
 Terminates == \A c \in Callers : (pc[c] # "idle") ~> (pc[c] = "idle")
 =============================================================================
